@@ -294,6 +294,8 @@ def probe_snapshot():
     class HookThread(threading.Thread):
         def join(self, timeout=None):
             super().join(timeout)
+            if self.is_alive():
+                return
             cb = hook.pop('cb', None)
             if cb is not None:
                 cb()
